@@ -1,5 +1,6 @@
 """Driver shared by C09 / C10 (Metrics.tla): real scopes with completion callbacks and recorded metrics."""
 from collections.abc import Sequence
+from typing import Literal
 
 from haiway import MISSING, State, ctx
 
@@ -17,17 +18,19 @@ class SubCat(Cat):
     """records of this SUBCLASS are folded by a merge function that answers with an instance of the base class"""
 
 
-class Last(State):
-    v: int
-
-
-class Sum(State):
+class _Tagged[Tag](State):
     """(falsy: a recorded metric is an arbitrary State - e.g. a counter at zero may well be falsy)"""
 
     v: int
 
     def __bool__(self) -> bool:
         return False
+
+
+# two metric types that are SPECIALISATIONS of one generic state, told apart only by a phantom type argument whose
+# names coincide (Literal[...] / Literal[...]): they are different metric types all the same
+Last = _Tagged[Literal["last"]]
+Sum = _Tagged[Literal["sum"]]
 
 
 class Boom(State):
@@ -62,6 +65,9 @@ MERGE = {
     "Mix": (Mix, lambda x: Mix(v=x), lambda a, b: Mix(v=2 * a.v + b.v)),
     "Same": (Same, lambda x: ONE, lambda a, b: Same(v=a.v + b.v)),
 }
+
+
+_NAME_OF = {cls: name for name, (cls, _, _) in MERGE.items()}
 
 
 def val_of(m, inst):
@@ -119,7 +125,7 @@ class MetricsDriver:
 
     def _snapshot(self, m):
         own = {k: val_of(k, m.read(MERGE[k][0])) for k in self.mtypes}
-        merged = {type(x).__name__: x for x in m.metrics(merge=view_merge)}
+        merged = {_NAME_OF.get(type(x), type(x).__name__): x for x in m.metrics(merge=view_merge)}
         view = {k: val_of(k, merged.get(k)) if k != "CatSub" else () for k in self.mtypes}
         return own, view
 
